@@ -550,12 +550,13 @@ func (s *Store[K, V]) DeleteWithSecondary(key K) error {
 	entry, ok := shard.get(key)
 	if ok {
 		shard.delete(entry)
-		if s.secondaryCache != nil {
-			err := s.secondaryCache.Delete(key)
-			if err != nil {
-				shard.mu.Unlock()
-				return err
-			}
+	}
+	// also when the key is not in memory: it may live in the secondary cache only
+	if s.secondaryCache != nil {
+		err := s.secondaryCache.Delete(key)
+		if err != nil {
+			shard.mu.Unlock()
+			return err
 		}
 	}
 	if verifOn {
